@@ -46,6 +46,11 @@ Lemma date_iter_pick (f b : Z -> R (option Z * Z)) stride (fwd : bool) :
 Proof. intros Hf Hb. destruct fwd; assumption. Qed.
 
 (** the judge's expected item [i] is the encoding of the model's date with that day number *)
+Lemma enc_bridge stride fwd x i v : vdate v -> dn v = seq_dn stride fwd x i ->
+  J.enc_dn (if fwd then dn x + i * stride else dn x - i * stride) = enc_date v.
+Proof.
+  intros V D. rewrite (enc_date_dn v V), D. unfold seq_dn. rewrite (Z.mul_comm stride i). reflexivity.
+Qed.
 Lemma item_bridge stride fwd x i v : vdate v -> dn v = seq_dn stride fwd x i ->
   VSome (J.enc_dn (if fwd then dn x + i * stride else dn x - i * stride)) = VSome (enc_date v).
 Proof.
@@ -211,6 +216,65 @@ Proof.
   destruct (end_accept days_next days_next_back 1 y o fwd DI_days_forward DI_days_backward ltac:(lia) Hy Ho Hn) as [A1 A2].
   destruct (end_accept weeks_next weeks_next_back 7 y o fwd DI_weeks_forward DI_weeks_backward ltac:(lia) Hy Ho Hn) as [A3 A4].
   split; [exact A1|]. split; [exact A3|]. split; [exact A2|exact A4].
+Qed.
+
+(** * it.dstep / it.wstep *)
+Lemma exp_steps_spec stride fwd x st : 1 <= st -> 0 <= seq_avail stride fwd x ->
+  forall (n : nat) i l, 0 <= i ->
+  Z.of_nat (length l) = Z.min (Z.of_nat n) (Z.max 0 ((seq_avail stride fwd x + st - 1) / st - i)) ->
+  (forall j z, nth_error l j = Some z -> vdate z /\ dn z = seq_dn stride fwd x (st * (i + Z.of_nat j))) ->
+  map enc_date l = J.exp_steps stride (dn x) st fwd i n.
+Proof.
+  intros Hst Ha. set (a := seq_avail stride fwd x) in *. set (q := (a + st - 1) / st).
+  pose proof (Z.mul_div_le (a + st - 1) st ltac:(lia)) as Q1.
+  pose proof (Z.mul_succ_div_gt (a + st - 1) st ltac:(lia)) as Q2. fold q in Q1, Q2.
+  induction n as [|n IH]; intros i l Hi Hlen Hent.
+  - destruct l as [|z l]; [reflexivity|]. cbn [length] in Hlen. lia.
+  - cbn [J.exp_steps]. unfold J.it_item. rewrite avail_bridge. fold a.
+    destruct (i * st <? a) eqn:E.
+    + assert (Hq : i < q) by nia.
+      destruct l as [|z l]; [cbn [length] in Hlen; lia|].
+      destruct (Hent 0%nat z eq_refl) as [Vz Dz].
+      replace (st * (i + Z.of_nat 0)) with (i * st) in Dz by lia.
+      rewrite (enc_bridge stride fwd x (i * st) z Vz Dz).
+      cbn [map]. f_equal. apply IH; [lia| |].
+      * cbn [length] in Hlen. lia.
+      * intros j w Hw. destruct (Hent (S j) w Hw) as [Vw Dw]. split; [exact Vw|].
+        rewrite Dw. f_equal. lia.
+    + assert (Hq : q <= i) by nia.
+      destruct l as [|z l]; [reflexivity|]. cbn [length] in Hlen. lia.
+Qed.
+
+Lemma step_accept (f b : Z -> R (option Z * Z)) stride y o fwd s cap :
+  date_iter f stride true -> date_iter b stride false ->
+  year_in_range y = true -> valid_yo y o = true -> 1 <= s <= 5000 -> 0 <= cap <= 60 ->
+  J.j_step stride [vd y o; VInt (dirv fwd); VInt s; VInt cap]
+    (run_step f b [vd y o; VInt (dirv fwd); VInt s; VInt cap]) = JOk.
+Proof.
+  intros Hf Hb Hy Ho Hs Hc. destruct (dec_date_ok y o Hy Ho) as [x [Ex [Vx [Dx _]]]].
+  destruct (small_ok s ltac:(lia)) as [S1 S2]. destruct (small_ok cap ltac:(lia)) as [C1 C2]. destruct (dir_ok fwd) as [D1 D2].
+  pose proof (date_iter_pick f b stride fwd Hf Hb) as Hi.
+  pose proof (date_iter_ok _ _ _ Hi) as [Hd [Hok [Hav _]]].
+  pose proof (avail_nonneg _ Hd x Vx) as AN. rewrite Hav in AN.
+  unfold run_step, J.j_step. rewrite Ex, S1, S2, C1, C2, D1, D2, (dn_of_date_ok y o Hy Ho), <- Dx.
+  replace ((s =? 0) || (60 <? cap)) with false by lia. replace ((1 <=? s) && (cap <=? 60)) with true by lia.
+  destruct (adapt_step_by _ stride fwd Hi s (Z.to_nat cap) x Vx ltac:(lia)) as [l [E [Len Ent]]].
+  rewrite E. cbn [val_of_R].
+  rewrite (exp_steps_spec stride fwd x s ltac:(lia) AN (Z.to_nat cap) 0 l ltac:(lia)).
+  - apply Proofs.C01Holds.judge_eq_refl.
+  - rewrite Len. assert (0 <= (seq_avail stride fwd x + s - 1) / s) by (apply Z.div_pos; lia). lia.
+  - intros j z Hz. destruct (Ent j z Hz) as [Vz Dz]. split; [exact Vz|]. rewrite Dz. f_equal.
+Qed.
+
+Lemma holds_step y o fwd s cap :
+  year_in_range y = true -> valid_yo y o = true -> 1 <= s <= 5000 -> 0 <= cap <= 60 ->
+  let args := [vd y o; VInt (dirv fwd); VInt s; VInt cap] in
+  J.judge B"it.dstep" args (run B"it.dstep" args) = JOk /\
+  J.judge B"it.wstep" args (run B"it.wstep" args) = JOk.
+Proof.
+  intros Hy Ho Hs Hc args. split.
+  - exact (step_accept days_next days_next_back 1 y o fwd s cap DI_days_forward DI_days_backward Hy Ho Hs Hc).
+  - exact (step_accept weeks_next weeks_next_back 7 y o fwd s cap DI_weeks_forward DI_weeks_backward Hy Ho Hs Hc).
 Qed.
 
 (** the hypotheses are inhabited (and the ops answer) *)
